@@ -10,8 +10,11 @@ import (
 	"errors"
 	"fmt"
 	"math/big"
+	"math/bits"
 	"sort"
 	"strings"
+	"sync"
+	"time"
 
 	"github.com/nspcc-dev/neo-go/pkg/core/mempool"
 	"github.com/nspcc-dev/neo-go/pkg/core/native/nativehashes"
@@ -45,6 +48,7 @@ type c08Op struct {
 	Stale []int    `json:"stale,omitempty"`
 	Bal   []c08Bal `json:"bal,omitempty"`
 	Fpb   int64    `json:"fpb,omitempty"`
+	H     uint32   `json:"h,omitempty"` // stale: the block height the Feer reports from now on (never decreases)
 }
 
 type c08Input struct {
@@ -59,6 +63,7 @@ type c08Step struct {
 	Res  string `json:"res"`
 	Ids  []int  `json:"ids"`
 	Keys []int  `json:"keys"`
+	Resent []int `json:"resent,omitempty"`
 }
 
 type c08Impl struct {
@@ -80,15 +85,16 @@ func c08Account(k int) util.Uint160 {
 func c08ForeignHash(h int) util.Uint256 { return util.Uint256{0xEE, byte(h), byte(h >> 8), 0x77} }
 
 type c08Feer struct {
-	bal map[[2]util.Uint160]int64
-	fpb int64
+	bal    map[[2]util.Uint160]int64
+	fpb    int64
+	height uint32
 }
 
 func (f *c08Feer) FeePerByte() int64 { return f.fpb }
 func (f *c08Feer) GetUtilityTokenBalance(p, s util.Uint160) *big.Int {
 	return big.NewInt(f.bal[[2]util.Uint160{p, s}])
 }
-func (f *c08Feer) BlockHeight() uint32 { return 0 }
+func (f *c08Feer) BlockHeight() uint32 { return f.height }
 func (f *c08Feer) set(b []c08Bal) {
 	f.bal = map[[2]util.Uint160]int64{}
 	for _, x := range b {
@@ -176,6 +182,8 @@ func c08ErrName(err error) string {
 
 func c08CoqRes(r string) string {
 	switch r {
+	case "resent":
+		return "HResent" // the list is appended by the caller
 	case "ok":
 		return "HOk"
 	case "true", "false":
@@ -331,6 +339,13 @@ func c08Run(co *caseOut, in c08Input) {
 	var coqSteps []string
 	events := map[string]bool{}
 	prev, prevKeys := []int{}, []int{}
+	var (
+		threshold uint32
+		resentMu  sync.Mutex
+		resent    []int
+		resentNow []int
+	)
+	stamp := map[int]uint32{}
 	oomOracle := map[uint64]bool{} // oracle ids whose latest response was refused with ErrOOM and none pooled since
 	diag := ""
 	for _, op := range in.Ops {
@@ -379,9 +394,56 @@ func c08Run(co *caseOut, in c08Input) {
 			feer.set(op.Bal)
 			feer.fpb = op.Fpb
 			setBal(op.Bal)
-			coqOp = fmt.Sprintf("HStale %s %s %d", c08Ints(sl), c08CoqBal(op.Bal), op.Fpb)
+			if op.H > feer.height {
+				feer.height = op.H
+			}
+			coqOp = fmt.Sprintf("HStale %s %s %d %d", c08Ints(sl), c08CoqBal(op.Bal), op.Fpb, feer.height)
+			// how many items the documented rule hands to the resend callback (to know how long to wait for it)
+			expect := 0
+			for _, t := range mp.GetVerifiedTransactions() {
+				i := byHash[t.Hash()]
+				if !stale[t.Hash()] && threshold != 0 {
+					d := feer.height - stamp[i]
+					if d%threshold == 0 && bits.OnesCount32(d/threshold) == 1 {
+						expect++
+					}
+				}
+			}
+			resentMu.Lock()
+			resent = nil
+			resentMu.Unlock()
 			pan = catch(func() {
 				mp.RemoveStale(func(t *transaction.Transaction) bool { return !stale[t.Hash()] }, feer)
+				res = "resent"
+			})
+			// the callback runs on its own goroutine: wait for what is expected (some of it may have been dropped for
+			// balance reasons and never come), then a little longer for anything beyond it
+			deadline := time.Now().Add(20 * time.Millisecond)
+			for expect > 0 && time.Now().Before(deadline) {
+				resentMu.Lock()
+				n := len(resent)
+				resentMu.Unlock()
+				if n >= expect {
+					break
+				}
+				time.Sleep(50 * time.Microsecond)
+			}
+			time.Sleep(150 * time.Microsecond)
+			resentMu.Lock()
+			resentNow = append([]int{}, resent...)
+			resentMu.Unlock()
+		case "resend":
+			threshold = uint32(op.I % 4)
+			if op.I < 0 {
+				threshold = 0
+			}
+			coqOp = fmt.Sprintf("HSetResend %d", threshold)
+			pan = catch(func() {
+				mp.SetResendThreshold(threshold, func(t *transaction.Transaction, _ any) {
+					resentMu.Lock()
+					resent = append(resent, byHash[t.Hash()])
+					resentMu.Unlock()
+				})
 				res = "ok"
 			})
 		default:
@@ -416,10 +478,34 @@ func c08Run(co *caseOut, in c08Input) {
 				keys = append(keys, i)
 			}
 		}
-		impl.Steps = append(impl.Steps, c08Step{Op: coqOp, Res: res, Ids: ids, Keys: keys})
-		coqSteps = append(coqSteps, fmt.Sprintf("(%s, %s, %s, %s)", coqOp, c08CoqRes(res), c08Ints(ids), c08Ints(keys)))
+		impl.Steps = append(impl.Steps, c08Step{Op: coqOp, Res: res, Ids: ids, Keys: keys, Resent: resentNow})
+		coqR := c08CoqRes(res)
+		if res == "resent" {
+			coqR = "HResent " + c08Ints(resentNow)
+			if len(resentNow) > 0 {
+				events["resent"] = true
+			}
+		}
+		coqSteps = append(coqSteps, fmt.Sprintf("(%s, %s, %s, %s)", coqOp, coqR, c08Ints(ids), c08Ints(keys)))
 		// direct evaluation of the property text on the observable projection
+		if op.Op == "stale" {
+			var want []int
+			for _, x := range ids {
+				if threshold != 0 {
+					d := feer.height - stamp[x]
+					if d%threshold == 0 && bits.OnesCount32(d/threshold) == 1 {
+						want = append(want, x)
+					}
+				}
+			}
+			if !c08EqInts(want, resentNow) && len(want)+len(resentNow) > 0 {
+				diag = fmt.Sprintf("resend: RemoveStale at height %d with threshold %d handed %v to the callback, the kept items that are due are %v", feer.height, threshold, resentNow, want)
+			}
+		} else {
+			resentNow = nil
+		}
 		switch {
+		case diag != "":
 		case unknown:
 			diag = "the pool lists a transaction that was never added"
 		case strings.HasPrefix(res, "unknown:"):
@@ -486,6 +572,9 @@ func c08Run(co *caseOut, in c08Input) {
 			diag = fmt.Sprintf("a failed Add (%s) changed the pool: %v -> %v", res, prev, ids)
 		}
 		// branch events
+		if op.Op == "add" && res == "ok" {
+			stamp[op.I] = feer.height
+		}
 		if op.Op == "add" {
 			events[res] = true
 			if o := in.Txs[op.I].Oracle; o != nil {
@@ -686,12 +775,23 @@ func c08Gen(r *rng, thorough bool) c08Input {
 			}
 		}
 	}
+	var genHeight uint32
+	resendProfile := r.chance(40) // a resend threshold and many block refreshes, so that kept items come due
+	if resendProfile {
+		in.Ops = append([]c08Op{{Op: "resend", I: 1 + r.intn(3)}}, in.Ops...)
+	}
 	nops := 8 + r.intn(20)
 	if thorough {
 		nops = 8 + r.intn(40)
 	}
 	for i := 0; i < nops; i++ {
 		x := r.intn(100)
+		if resendProfile && x >= 75 {
+			x = 95 // more refreshes
+		}
+		if r.chance(3) {
+			in.Ops = append(in.Ops, c08Op{Op: "resend", I: r.intn(4)})
+		}
 		switch {
 		case x < 62:
 			in.Ops = append(in.Ops, c08Op{Op: "add", I: r.intn(ntx)})
@@ -716,6 +816,8 @@ func c08Gen(r *rng, thorough bool) c08Input {
 			if len(in.Ops) > 0 && r.chance(60) {
 				op.Bal = genBal()
 			}
+			genHeight += uint32(1 + r.intn(3))
+			op.H = genHeight
 			if r.chance(30) {
 				op.Fpb = int64(r.intn(4))
 			}
@@ -729,7 +831,7 @@ func runC08(args []string) error {
 	cf, fs := parseCommon("c08", args)
 	fs.Parse(args)
 	co := newCaseOut(cf.out, "Harness.C08", "N",
-		"operation sequences (Add/Remove/Verify/HasConflicts/RemoveStale) on mempool.Pool with capacity 1..6 over 5..18 transactions with "+
+		"operation sequences (Add/Remove/Verify/HasConflicts/RemoveStale at rising block heights/SetResendThreshold 0..3 with a recording callback) on mempool.Pool with capacity 1..6 over 5..18 transactions with "+
 			"few distinct fees and sizes, ordinary and Notary-sponsored senders, co-signers, Conflicts against earlier transactions, two oracle ids, "+
 			"balances that bind; a sequence is non-trivial when some Add was refused for a reason other than ErrDup, or replaced/evicted another "+
 			"transaction, or RemoveStale dropped one; distinct by Coq term")
